@@ -683,6 +683,11 @@ def check_msg(case, ctx):
         require(b2.serialize() == want, "messages/block_header_reserialize")
         b3 = must(Block.parse_header, "messages/block_header_parse_hex", hex=want.hex())
         require(b3.serialize() == want, "messages/block_header_parse_hex_differs")
+        # the encoding follows the object's fields, also when they change after a first encoding
+        h2 = dict(h, nonce=(h["nonce"] + 1) % 2**32, time=(h["time"] ^ 1))
+        b2.nonce = struct.pack("<I", h2["nonce"])
+        b2.timestamp = h2["time"]
+        require(b2.serialize() == ref_header(h2), "messages/block_header_layout_after_field_change")
     else:
         raise AssertionError(t)
 
